@@ -132,4 +132,64 @@ example : ruleDateInterval (date3 2020 12 12) (some (tod 9 none)) (some (tod 5 n
     .ok (some (.interval (some { year := some 2020, month := some 12, day := some 12, hour := some 9 })
                          (some { year := some 2020, month := some 12, day := some 12, hour := some 17, minute := some 0 }))) := by decide +kernel
 
+/-- a date with a clock time is its own `datetime` -/
+theorem dt_of_datetime (D : Date) (h mi : Int) (hv : D.valid = true) (hr : D.inRange = true) (hh : 0 ≤ h ∧ h ≤ 23) (hm : 0 ≤ mi ∧ mi ≤ 59) :
+    (Time.dt { year := some D.y, month := some D.m, day := some D.d, hour := some h, minute := some mi }) = .ok ⟨D, h, mi⟩ := by
+  have a : (0 ≤ h) = True := by simp; omega
+  have b : (h ≤ 23) = True := by simp; omega
+  have c : (0 ≤ mi) = True := by simp; omega
+  have d : (mi ≤ 59) = True := by simp; omega
+  simp [Time.dt, Time.start, hv, hr, a, b, c, d, bind, Except.bind, pure, Except.pure]
+
+/-- **dated clock range** (`<date> A - B`): the start is A on that date; the end is B on that date, B + 12 h (the "9-5" rule:
+    both hours ≤ 12, A.hour ≥ B.hour, and the shifted end after the start) or B on the next day; in every case
+    **start < end ≤ start + 24 h**, for every valid date up to year 9990 and every pair of clock times -/
+theorem dateInterval_spec (D : Date) (hv : D.Valid) (hy : 1 ≤ D.y ∧ D.y ≤ 9990) (h1 m1 h2 m2 : Int)
+    (r1 : 0 ≤ h1 ∧ h1 ≤ 23 ∧ 0 ≤ m1 ∧ m1 ≤ 59) (r2 : 0 ≤ h2 ∧ h2 ≤ 23 ∧ 0 ≤ m2 ∧ m2 ≤ 59) :
+    ∃ e : Ts, ruleDateInterval (date3 D.y D.m D.d) (some (tod h1 (some m1))) (some (tod h2 (some m2))) =
+        .ok (some (.interval (some { year := some D.y, month := some D.m, day := some D.d, hour := some h1, minute := some m1 }) (some (tsToTime e none)))) ∧
+      (⟨D, h1, m1⟩ : Ts).minutes < e.minutes ∧ e.minutes ≤ (⟨D, h1, m1⟩ : Ts).minutes + 1440 ∧
+      (e.minutes = (⟨D, h2, m2⟩ : Ts).minutes ∨ e.minutes = (⟨D, h2, m2⟩ : Ts).minutes + 720 ∨ e.minutes = (⟨D, h2, m2⟩ : Ts).minutes + 1440) := by
+  have hvb : D.valid = true := (Date.valid_iff D).mpr hv
+  have hrb : D.inRange = true := by simp [Date.inRange]; omega
+  obtain ⟨o1, o2⟩ := ord_bounds_of_year D hv hy
+  have hA := dt_of_datetime D h1 m1 hvb hrb ⟨r1.1, r1.2.1⟩ ⟨r1.2.2.1, r1.2.2.2⟩
+  have hB := dt_of_datetime D h2 m2 hvb hrb ⟨r2.1, r2.2.1⟩ ⟨r2.2.2.1, r2.2.2.2⟩
+  have tod1 : ({ hour := some h1, minute := some m1 } : Time).isTOD = true := by simp [Time.isTOD, Time.hasOnly, Gen.timeAttrs, Time.isSet]
+  have tod2 : ({ hour := some h2, minute := some m2 } : Time).isTOD = true := by simp [Time.isTOD, Time.hasOnly, Gen.timeAttrs, Time.isSet]
+  -- the three candidate ends
+  have key : ∀ k : Int, (k = 720 ∨ k = 1440) →
+      let e := (⟨D, h2, m2⟩ : Ts).addMinutes k
+      e.minutes = (⟨D, h2, m2⟩ : Ts).minutes + k ∧ e.date.inRange = true := by
+    intro k hk
+    have hmin : (⟨D, h2, m2⟩ : Ts).minutes = (D.ord * 24 + h2) * 60 + m2 := rfl
+    obtain ⟨s1, s2, s3, s4, s5, s6⟩ := addMinutes_spec ⟨D, h2, m2⟩ k (by rw [hmin]; omega) (by rw [hmin]; omega)
+    refine ⟨s1, ?_⟩
+    apply C03.inRange_of_ord _ s2
+    · have : ((⟨D, h2, m2⟩ : Ts).addMinutes k).minutes = (((⟨D, h2, m2⟩ : Ts).addMinutes k).date.ord * 24 + ((⟨D, h2, m2⟩ : Ts).addMinutes k).h) * 60 + ((⟨D, h2, m2⟩ : Ts).addMinutes k).mi := rfl
+      rw [s1, hmin] at this; omega
+    · have : ((⟨D, h2, m2⟩ : Ts).addMinutes k).minutes = (((⟨D, h2, m2⟩ : Ts).addMinutes k).date.ord * 24 + ((⟨D, h2, m2⟩ : Ts).addMinutes k).h) * 60 + ((⟨D, h2, m2⟩ : Ts).addMinutes k).mi := rfl
+      rw [s1, hmin] at this; omega
+  have hminA : (⟨D, h1, m1⟩ : Ts).minutes = (D.ord * 24 + h1) * 60 + m1 := rfl
+  have hminB : (⟨D, h2, m2⟩ : Ts).minutes = (D.ord * 24 + h2) * 60 + m2 := rfl
+  by_cases hge : (⟨D, h1, m1⟩ : Ts).minutes ≥ (⟨D, h2, m2⟩ : Ts).minutes
+  · cases hs : shift12 h1 h2 (⟨D, h1, m1⟩ : Ts).minutes (⟨D, h2, m2⟩ : Ts).minutes with
+    | true =>
+      have h95 : (⟨D, h2, m2⟩ : Ts).minutes + 12 * 60 > (⟨D, h1, m1⟩ : Ts).minutes := by
+        simp only [shift12, Bool.and_eq_true, decide_eq_true_eq] at hs; exact hs.2
+      obtain ⟨e1, e2⟩ := key 720 (Or.inl rfl)
+      refine ⟨(⟨D, h2, m2⟩ : Ts).addMinutes 720, ?_, by rw [e1]; omega, by rw [e1]; omega, Or.inr (Or.inl e1)⟩
+      simp [ruleDateInterval, date3, tod, tod1, tod2, hA, hB, hge, hs, dateOk, e2, bind, Except.bind, pure, Except.pure]
+    | false =>
+      obtain ⟨e1, e2⟩ := key 1440 (Or.inr rfl)
+      refine ⟨(⟨D, h2, m2⟩ : Ts).addMinutes 1440, ?_, by rw [e1]; omega, by rw [e1]; omega, Or.inr (Or.inr e1)⟩
+      simp [ruleDateInterval, date3, tod, tod1, tod2, hA, hB, hge, hs, dateOk, e2, bind, Except.bind, pure, Except.pure]
+  · refine ⟨⟨D, h2, m2⟩, ?_, by omega, by rw [hminA, hminB] at *; omega, Or.inl rfl⟩
+    simp [ruleDateInterval, date3, tod, tod1, tod2, hA, hB, hge, tsToTime, bind, Except.bind, pure, Except.pure]
+
+/-- the "9-5" rule itself: the 12-hour shift is taken exactly when both hours are ≤ 12, the start hour is not before the end
+    hour, and the shifted end is after the start -/
+theorem shift12_iff (ha hb da db : Int) : shift12 ha hb da db = true ↔ (ha ≤ 12 ∧ hb ≤ 12 ∧ ha ≥ hb ∧ db + 720 > da) := by
+  simp [shift12, and_assoc]
+
 end QuickAdd.C07
